@@ -22,6 +22,7 @@
   nested store, the list of ITS current variables.
 -/
 import FianoModel.Nvram.Spec
+import FianoModel.Nvram.Model
 
 namespace Fiano.Nvram.Spec
 
@@ -94,10 +95,21 @@ end
 
 /-! ### well-formedness (decidable) -/
 
-/-- raw value: the content (value and extended header) does not begin with the NVAR signature;
+/-- fiano does not take the content `c` for a store: `NewNVarStore` (the model's `parseStore`,
+    what `parseContent` calls when the content begins with the NVAR signature) refuses it, so
+    `NVar.NVarStore` stays nil and the content is plain bytes for Assemble and compaction -/
+def notStore (pol : Nat) (c : Bytes) : Bool :=
+  match parseStore pol c with
+  | .ok _ => false
+  | .error _ => true
+
+/-- raw value: the content (value and extended header) does not begin with the NVAR signature, or
+    it does and fiano does not take it for a store (`notStore` — this is where a store that sits in
+    an entry WITH an extended header belongs: fiano hands content + extended header to
+    `NewNVarStore`, which normally fails on the trailing header bytes; round 3, wp-c10c);
     store value: no extended header, same erase polarity as the parent -/
 def valueOk (pol : Nat) (x : Option Ext) : NValue → Bool
-  | .raw b => (b ++ extSer x).take 4 != sig
+  | .raw b => (b ++ extSer x).take 4 != sig || notStore pol (b ++ extSer x)
   | .store s => x.isNone && s.pol == pol
 
 def NEntry.valueOk (pol : Nat) : NEntry → Bool
